@@ -241,3 +241,44 @@ pub fn rand_bytes_in(rng: &mut StdRng, lo: usize, hi: usize) -> Vec<u8> {
     let n = rng.gen_range(lo..hi);
     rand_bytes(rng, n)
 }
+
+/// Damage inside the fields, recursively: every length-delimited field is replaced by damaged
+/// variants of its content (`leaf`), and - when the content itself parses as a protobuf
+/// message - by the same damage applied one level down with the enclosing lengths fixed up
+/// (`nested`), so that identifiers, keys and addresses buried in sub-messages are reached.
+pub fn mutations_deep(valid: &[u8], depth: usize) -> Vec<(String, Vec<u8>)> {
+    let mut out = vec![];
+    let Some(fields) = pb_parse(valid) else { return out };
+    for (i, (_, val)) in fields.iter().enumerate() {
+        let PbVal::Bytes(b) = val else { continue };
+        let mut variants: Vec<(String, Vec<u8>)> = vec![("leaf".into(), vec![]), ("leaf".into(), [&b[..], &[0u8][..]].concat())];
+        if !b.is_empty() {
+            variants.push(("leaf".into(), b[..b.len() - 1].to_vec()));
+            variants.push(("leaf".into(), b[1..].to_vec()));
+            for pos in 0..b.len().min(3) {
+                for x in [0x00u8, 0x01, 0x11, 0x12, 0x13, 0x20, 0x2a, 0x2b, 0x40, 0x41, 0x7f, 0x80, 0xff] {
+                    if b[pos] != x {
+                        let mut v = b.clone();
+                        v[pos] = x;
+                        variants.push(("leaf".into(), v));
+                    }
+                }
+            }
+            let mut v = b.clone();
+            let last = v.len() - 1;
+            v[last] ^= 0x80;
+            variants.push(("leaf".into(), v));
+        }
+        if depth > 0 && !b.is_empty() && pb_parse(b).map(|f| !f.is_empty()).unwrap_or(false) {
+            for (_, nb) in mutations_deep(b, depth - 1) {
+                variants.push(("nested".into(), nb));
+            }
+        }
+        for (op, v) in variants {
+            let mut f = fields.clone();
+            f[i].1 = PbVal::Bytes(v);
+            out.push((op, pb_emit(&f)));
+        }
+    }
+    out
+}
